@@ -57,6 +57,34 @@ def precedence_cases():
             doc = file_doc(0, extra_global=g, cert_extra=ce, endpoint_extra=ee)
             want = conv(vals[0]) if pat[0] else (conv(vals[1]) if pat[1] else (conv(vals[2]) if pat[2] else default))
             out.append(load_req({"main.toml": doc}, {"part": "precedence", "setting": name, "pattern": list(pat), "field": field, "want": want}))
+    # several certificates on one endpoint, each setting its own subset of the three options at certificate level, in several
+    # declaration orders: what one certificate sets (or inherits) must not depend on its neighbours
+    subsets = list(itertools.product([False, True], repeat=3))
+    orders = [list(range(8)), list(range(7, -1, -1)), [3, 5, 0, 6, 1, 7, 2, 4], [4, 2, 7, 1, 6, 0, 5, 3]]
+    for order in orders:
+        for ep_level in (False, True):
+            for g_level in (False, True):
+                g = dict(BASE_GLOBAL)
+                ee = {}
+                for name, vals, field, default, conv in settings:
+                    if ep_level:
+                        ee[name] = vals[1]
+                    if g_level:
+                        g[name] = vals[2]
+                doc = file_doc(0, extra_global=g, endpoint_extra=ee)
+                cert0 = doc["certificate"][0]
+                doc["certificate"] = []
+                wants = {}
+                for k in order:
+                    c = dict(cert0, identifiers=[{"dns": "m%d.example" % k, "challenge": "http-01"}])
+                    w = {}
+                    for (name, vals, field, default, conv), here in zip(settings, subsets[k]):
+                        if here:
+                            c[name] = vals[0]
+                        w[field] = conv(vals[0]) if here else (conv(vals[1]) if ep_level else (conv(vals[2]) if g_level else default))
+                    doc["certificate"].append(c)
+                    wants["m%d.example_ecdsa-p256" % k] = w
+                out.append(load_req({"main.toml": doc}, {"part": "precedence-multi", "order": order, "endpoint_level": ep_level, "global_level": g_level, "wants": wants}))
     for pat in itertools.product([False, True], repeat=2):
         if not any(pat):
             continue  # the built-in default directory is outside the scratch root
@@ -292,6 +320,18 @@ def judge(req, obs):
         if got != want:
             levels = "".join("CEG"[i] if p else "-" for i, p in enumerate(m["pattern"])) if len(m["pattern"]) == 3 else "".join("CG"[i] if p else "-" for i, p in enumerate(m["pattern"]))
             add("most-specific-wins", "%s|present=%s" % (m["setting"], levels), "%s = %r" % (m["setting"], want), "%r" % got)
+    elif m["part"] == "precedence-multi":
+        by_id = {c["id"]: c for c in certs}
+        for cid, w in m["wants"].items():
+            c = by_id.get(cid)
+            if c is None:
+                add("most-specific-wins", "multi|certificate-missing", "certificate %s is loaded" % cid, "ids %s" % sorted(by_id))
+                continue
+            for field, want in w.items():
+                want = subst(want, obs)
+                if c.get(field) != want:
+                    add("most-specific-wins", "multi|%s|endpoint=%s|global=%s" % (field, m["endpoint_level"], m["global_level"]),
+                        "%s of %s = %r whatever its neighbours set" % (field, cid, want), "%r (declaration order %s)" % (c.get(field), m["order"]))
     elif m["part"] == "include-graph":
         want_ids = sorted("c%d.example_ecdsa-p256" % i for i in m["reach"])
         got_ids = sorted(c["id"] for c in certs)
@@ -332,10 +372,11 @@ def run(ctx):
         res.evaluations += 1
         m = r["meta"]
         key = {"precedence": lambda: "prec|%s|%s" % (m["setting"], m["pattern"]), "include-graph": lambda: "graph|reach=%s|edges=%s" % (m["reach"], len(m["edges"]) if not str(m["mask"]).startswith("spelling") else m["mask"]),
-               "global-split": lambda: "split|%s|%s" % (m["option"], m["pattern"]), "dangling": lambda: "ref|%s" % m["case"]}[m["part"]]()
+               "global-split": lambda: "split|%s|%s" % (m["option"], m["pattern"]), "dangling": lambda: "ref|%s" % m["case"],
+               "precedence-multi": lambda: "prec-multi|%s|%s|%s" % (m["order"][0], m["endpoint_level"], m["global_level"])}[m["part"]]()
         res.outcomes[key] += 1
         if res.evaluations % 97 == ctx.seed % 97:
-            res.add_sample({"case": {k: v for k, v in m.items() if k != "want"}, "load": o["phases"][0].get("new"),
+            res.add_sample({"case": {k: v for k, v in m.items() if k not in ("want", "wants")}, "load": o["phases"][0].get("new"),
                             "certificates": [c["id"] for c in (o["phases"][0].get("parts") or {}).get("certificates", [])]})
         for (oracle, sig, ex, ob) in judge(r, o):
             res.violation(oracle, sig, ex, ob, replay=r)
